@@ -53,6 +53,12 @@ func (p *Program) lookupFunc(key string) *ssa.Function {
 
 // runObligations decides all obligations with a worker pool.
 func runObligations(obls []*Obligation, timeoutS int, all bool, dump string, workers int) {
+	hf := os.Getenv("GOVC_HINTS")
+	if hf == "" {
+		hf = "/verif/cache/proof_hints.json"
+	}
+	loadHints(hf)
+	defer saveHints()
 	var wg sync.WaitGroup
 	ch := make(chan *Obligation)
 	for i := 0; i < workers; i++ {
